@@ -88,7 +88,7 @@ pub open spec fn eff_code(de: Deserializer) -> Option<u8> { match de.elem_format
 
 impl Deserializer {
 //@@ fn file=serde_amqp/src/de.rs impl=`impl<'de, R: Read<'de>> Deserializer<R>` name=get_elem_code_or_peek_byte
-//@@ subst `self.reader.peek().map(Ok)` => `self.reader.peek().map(|b: u8| -> (o: Result<u8, Error>) ensures o == Ok::<u8, Error>(b) { Ok(b) })` rule=R18
+//@@ subst `self.reader.peek().map(Ok)` => `self.reader.peek().map(|b: u8| -> (o: Result<u8, Error>) ensures o == Ok::<u8, Error>(b) { Ok(b) })` rule=R18 unless `\.map\(`
 //@@ spec
     ensures (match eff_code(*old(self)) { Some(c) => r == Some(Ok::<u8, Error>(c)), None => r is None }),        // [C05.array.one-constructor] the constructor looked at is the array's element constructor inside an array, the next octet otherwise; nothing is consumed
         final(self).reader == old(self).reader, final(self).elem_format_code == old(self).elem_format_code, final(self).called == old(self).called,
